@@ -44,6 +44,9 @@ func main() {
 	}
 
 	seed := lib.Seed()
+	codeFacts = probeCodeFacts(seed)
+	rep.Notes = append(rep.Notes, fmt.Sprintf("code facts probed on the real keeper: UnbondedOracle deletes the per-oracle cursor = %v; GetLastEventNonceByOracle lifts an old cursor = %v",
+		codeFacts.UnbondDeletesCursor, codeFacts.CursorClamps))
 	nh := 60
 	if lib.Tier() == "thorough" {
 		nh = 300
@@ -96,6 +99,7 @@ func runReplay(rep *lib.Report, prop string) {
 	lib.Must(json.Unmarshal(b, &f))
 	var rp Replay
 	lib.Must(json.Unmarshal(f.Replay, &rp))
+	codeFacts = probeCodeFacts(1)
 	if rp.Tx != nil {
 		replayTx(rp, rep)
 		return
